@@ -36,10 +36,35 @@ DESCR = {
               'workflow already paused; an output message processed in the same iteration as the reload; the new definition adds a prerequisite on it'),
     'S-C28': ('commands.py _force_trigger_tasks: outputs of finished (not only live) group-start members recorded as completed',
               'a finished incomplete group-start member re-run by the trigger together with a member depending on an output of its old run'),
+    'S-C10': ('task_events_mgr.py process_message: "already running" guard is_gt(RUNNING) -> state(RUNNING)',
+              'a started message for the current submit number delivered after the task has failed (no retry left) or succeeded incomplete'),
+    'S-C11': ('task_pool.py _load_historical_outputs: manually completed outputs dropped when a proxy is rebuilt from the DB',
+              'failed task retained incomplete, completed with `cylc set`, removed, then reached again by the same flow'),
+    'S-C25': ('task_pool.py spawn_on_output: prerequisite delta only for the listed child',
+              'absolute trigger whose child also has an ordinary parent, completing out of cycle order'),
+    'S-C29': ('task_events_mgr.py _process_message_failed: "forced" short-circuit lost',
+              '`cylc set --out=failed` on a task with a live job and an execution retry left'),
+    'S-C30': ('commands.py _remove_matched_tasks: any() stops un-setting at the first prerequisite',
+              'a child depending on the removed parent through two separate prerequisite expressions'),
+    'S-C32': ('task_pool.py/task_proxy.py reload refactor: is_manual_submit not carried to the reload successor',
+              'clock-expired task force-triggered into a full queue, then a reload before a slot frees up'),
+    'S-C33': ('scheduler.py _main_loop: housekeep() given a task list taken before sequential-xtrigger spawning',
+              'sequential non-clock xtrigger whose signature does not contain the cycle point'),
+    'S-C43': ('task_pool.py compute_runahead: stop-point clamp applied before the future-trigger offset',
+              'future trigger in the graph and a stop point earlier than the final point'),
+    'S-C45': ('task_pool.py spawn_on_output: absolute_outputs table stores the output label instead of the message',
+              'absolute trigger on a custom output, restart after it completed, dependents spawned after the restart'),
     'S-C31': ('cycling/integer.py get_nearest_prev_point reduced to get_prev_point',
               'sequential task on a finite recurrence followed after a gap by another recurrence'),
 }
 NOTES = {
+    'S-C10': 'first caught only by C09 (illegal transition); C10 got an independent rule (a received message for an earlier stage must not move the status back)',
+    'S-C11': 'caught by C29 (the set command is what makes the task complete); the C11 workload has no operator commands',
+    'S-C25': 'first missed: C25 generated no absolute triggers; enabled',
+    'S-C29': 'first missed: C29 only set outputs in a paused workflow (no live jobs); a live mode was added',
+    'S-C32': 'caught by C27 (state carried across a reload), not by C32, whose workload has no reload',
+    'S-C33': 'first missed: the model took "still needed" from the task list cylc passes to housekeep() (the very list the change makes stale); it now reads the pool',
+    'S-C45': 'first missed: absolute triggers were only generated on :succeeded and all dependents were spawned before the stop; custom outputs and long, tightly runahead-limited stop/restart runs added',
     'S-C26': 'caught by C26 (56 violations in 800 runs) on the commit it was seeded on (b1144d7) after the C26 workload gained operator commands; on the current tree the repair 2e8800f makes `stop --flow` publish a data-store delta, which triggers the table rewrite by itself, so the seeded change no longer breaks the property (equivalent mutant on HEAD)',
     'S-C01': 'first missed: the known-finding predicate of C01-F1 (any broken parentless chain) swallowed it; the predicate was narrowed to chains the shipped per-recurrence algorithm cannot reach',
     'S-C02': 'first missed: the world had no job that is accepted and then lost before starting, and the outcome plan never exhausted the submission retries; both added, and a never-ending run is now ended as a livelock and judged instead of being a harness error',
